@@ -535,6 +535,7 @@ def selfref_worker(task):
     src = '''
 from typing import Any, List, Dict
 from spec_classes import spec_class, Attr
+from spec_classes.types import KeyedList, KeyedSet
 @spec_class
 class Node:
     name: str
@@ -546,6 +547,11 @@ class Node:
 class KNode:
     name: str
     peer: Any = None
+@spec_class(key="name")
+class SNode:
+    name: str
+    peers: KeyedSet["SNode", str] = Attr(default_factory=KeyedSet)
+    chain: KeyedList["SNode", str] = Attr(default_factory=KeyedList)
 @spec_class
 class URepr:
     x: int = 0
@@ -587,6 +593,16 @@ class URepr:
         elif kind == "list_dict_cycle":
             a.kids.append(a.table)
             a.table["k"] = a.kids
+        elif kind in ("mutual_through_keyedset", "self_in_keyedset", "mutual_through_keyedlist", "self_in_keyedlist"):
+            SNode = ns["SNode"]
+            a, b = SNode("a"), SNode("b")
+            attr = "peers" if "keyedset" in kind else "chain"
+            add = (lambda c, x: c.add(x)) if "keyedset" in kind else (lambda c, x: c.append(x))
+            if kind.startswith("mutual"):
+                add(getattr(a, attr), b)
+                add(getattr(b, attr), a)
+            else:
+                add(getattr(a, attr), a)
         elif kind == "spec_class_as_value":
             a.anyv = KNode               # the CLASS object itself (it has __spec_class__ and a __repr__ too)
         elif kind == "spec_classes_in_list":
@@ -603,7 +619,8 @@ class URepr:
         return a
 
     for kind in ("direct", "in_list", "in_any_list", "in_dict", "mutual", "mutual_keyed", "triangle", "list_in_itself", "dict_in_itself",
-                 "list_in_itself_long", "list_dict_cycle", "spec_class_as_value", "spec_classes_in_list", "nested_user_repr", "missing_values",
+                 "list_in_itself_long", "list_dict_cycle", "mutual_through_keyedset", "self_in_keyedset", "mutual_through_keyedlist",
+                 "self_in_keyedlist", "spec_class_as_value", "spec_classes_in_list", "nested_user_repr", "missing_values",
                  "bound_method_of_self", "bound_method_of_other"):
         for kwargs in ({}, {"indent": True}, {"indent": False}, {"compact": True}):
             C.inc("states")
@@ -618,7 +635,7 @@ class URepr:
             except BaseException as e:
                 C.viol(violation(PROP, {"part": "selfref", "kind": "repr_raised", "structure": kind, "error": type(e).__name__},
                                  {"error": repr(e)[:200], "kwargs": kwargs}, {"part": "selfref", "structure": kind, "kwargs": kwargs}))
-    C.sample({"part": "selfref", "structures": 17})
+    C.sample({"part": "selfref", "structures": 21})
     return C.rec
 
 
